@@ -185,6 +185,33 @@ def build_all(quiet=False, race=False):
     return r
 
 
+def coqchk_all():
+    """Independent re-check of every Props file and everything it depends on (thorough tier); cached under build/ by the
+    hash of the compiled files.  Returns (ok, summary)."""
+    vos = []
+    for root, _d, files in os.walk(COQ):
+        for f in sorted(files):
+            if f.endswith(".vo"):
+                p = os.path.join(root, f)
+                vos.append((os.path.relpath(p, COQ), hashlib.sha256(open(p, "rb").read()).hexdigest()))
+    key = hashlib.sha256(json.dumps(sorted(vos)).encode()).hexdigest()
+    cache = os.path.join(BUILD, "coqchk.json")
+    if os.path.exists(cache):
+        try:
+            d = json.load(open(cache))
+            if d.get("key") == key:
+                return d["ok"], d["summary"]
+        except Exception:
+            pass
+    mods = ["GoSh.Props." + f[:-2] for f in sorted(os.listdir(os.path.join(COQ, "theories", "Props"))) if f.endswith(".v")]
+    rc, out, _ = run(["timeout", "3000", "coqchk", "-silent", "-o", "-Q", "theories", "GoSh", "-Q", "gen", "GoShGen"] + mods, cwd=COQ, timeout=3100)
+    tail = out[out.find("CONTEXT SUMMARY"):] if "CONTEXT SUMMARY" in out else out[-1500:]
+    ok = rc == 0 and "Axioms: <none>" in tail and "type-in-type: <none>" in tail and "unsafe (co)fixpoints: <none>" in tail and "positivity is assumed: <none>" in tail
+    summary = " ".join(tail.split())[:600]
+    json.dump({"key": key, "ok": ok, "summary": summary}, open(cache, "w"))
+    return ok, summary
+
+
 def coq_flags():
     return ["-Q", "theories", "GoSh", "-Q", "gen", "GoShGen", "-w", "-notation-overridden,-deprecated-hint-without-locality,-deprecated-syntactic-definition"]
 
